@@ -44,6 +44,22 @@ def _is(ev, body):
     return ev.kind == "call" and (ev.fn.get("resolved") or ev.fn).get("def") == body.key
 
 
+def _none_of(st, calls):
+    """the path's facts say that the result of one of the solver calls is None: `?` (Try::branch's Break),
+    a match / if-let on the result, or an Option combinator (all leave a fact on the discriminant)"""
+    for e in calls:
+        for f in st.facts:
+            t = f[1]
+            if not (isinstance(t, tuple) and t and t[0] == "discr"):
+                continue
+            x = t[1]
+            if x == e.res and ((f[0] == "eq" and f[2] == 0) or (f[0] == "ne" and f[2] == 1)):
+                return True
+            if isinstance(x, tuple) and x and x[0] == "call" and str(x[1]).endswith("Try>::branch") and x[2] and x[2][0] == e.res and f[0] == "eq" and f[2] == 1:
+                return True
+    return False
+
+
 def _zero_fact(f, T):
     """fact says  <term> == 0 : returns the polynomial that is zero"""
     kind, t, v = f
@@ -67,7 +83,8 @@ def _zero_fact(f, T):
 def check(col, prog, tier, profile, fixture=None):
     crate = prog.crate(fixture or "rlib_gcd")
     free = [f for f in crate.bodies if not f.is_closure and f.kind == "Fn" and f.container is None and f.vis != "pub" and not util.self_recursive(f)]
-    Af = util.analyser(free)
+    # Option/bool combinators with closures are case splits; `x op= y` on the type parameter is x := x op y
+    Af = util.analyser(free, features=("comb", "fncall", "opassign"))
     fk = util.fkey
     gcd = util.need_body(crate, "gcd")
     lcm = util.need_body(crate, "lcm")
@@ -128,7 +145,7 @@ def check(col, prog, tier, profile, fixture=None):
                 col.violation("Q1", key, egcd.loc(), "egcd returns a pair that does not satisfy a*x + b*y = c: the residual polynomial is  %s  (hypotheses: %s)" % (goal2, "; ".join(repr(h) for h in hyps2) or "none"))
         else:
             # None: base test failed, or propagated from the recursive call
-            prop = any(f[0] == "eq" and f[2] == 1 and isinstance(f[1], tuple) and f[1][0] == "discr" for f in st.facts) and rec
+            prop = _none_of(st, rec)
             T = Translator()
             base = False
             for f in st.facts:
@@ -164,7 +181,7 @@ def check(col, prog, tier, profile, fixture=None):
                 v = e.extra["argvals"][0]
                 if v in (pa, pb):
                     absd[v] = True
-            if e.kind == "call" and seen_loop and e.extra.get("name") not in ("ne", "eq", "rem_assign", "swap", "rem", "clone", "replace", "take"):
+            if e.kind == "call" and seen_loop and not e.extra.get("inlined") and e.extra.get("name") not in ("ne", "eq", "rem_assign", "swap", "rem", "clone", "replace", "take", "not"):
                 loop_ok = False
     ret_ok = all(util.ret_term(st)[0] == "phi" for st in I.final_states)
     key = "%s|abs-both" % fk(gcd)
@@ -178,19 +195,42 @@ def check(col, prog, tier, profile, fixture=None):
     else:
         col.violation("Q2", key, gcd.loc(), "gcd's loop is not the remainder/swap loop over the absolute values")
     I = Af(lcm)
+    la, lb = ("param", 1, I.names.get(1)), ("param", 2, I.names.get(2))
+
+    def _unref(x):
+        return x[1][1] if isinstance(x, tuple) and x and x[0] == "ref" and x[1][0] == "constval" else x
+
+    def _is_abs(x):
+        return isinstance(x, tuple) and x and x[0] == "call" and str(x[1]).split("::")[-1] in ("abs", "into_abs")
+
+    def _operand_of(x):
+        """which of lcm's parameters the term is (through clones, references and abs)"""
+        x = _unref(x)
+        while isinstance(x, tuple) and x and x[0] == "call" and str(x[1]).split("::")[-1] in ("abs", "into_abs", "clone"):
+            inner = [y for y in x[2] if not (isinstance(y, tuple) and y and y[0] == "mem")]
+            x = _unref(inner[0]) if inner else None
+        if isinstance(x, tuple) and x and x[0] == "ref" and x[1][0] == "deref":
+            x = x[1][1]
+        return x if x in (la, lb) else None
+
     for st in I.final_states:
         ret = util.ret_term(st)
         ok = ret[0] == "call" and str(ret[1]).endswith("Mul::mul")
         if ok:
             args = [x for x in ret[2] if not (isinstance(x, tuple) and x and x[0] == "mem")]
             lhs, rhs = args[0], args[1]
-            rv = rhs[1][1] if rhs[0] == "ref" and rhs[1][0] == "constval" else rhs
-            ok = lhs[0] == "call" and str(lhs[1]).endswith("Div::div") and rv[0] == "call" and str(rv[1]).endswith("::abs")
+            rv = _unref(rhs)
+            ok = lhs[0] == "call" and str(lhs[1]).endswith("Div::div") and _is_abs(rv)
             if ok:
                 dargs = [x for x in lhs[2] if not (isinstance(x, tuple) and x and x[0] == "mem")]
                 num = dargs[0]
-                den = dargs[1][1][1] if dargs[1][0] == "ref" and dargs[1][1][0] == "constval" else dargs[1]
-                ok = num[0] == "call" and str(num[1]).endswith("::abs") and den[0] == "call" and str(den[1]).split("::")[-1] == "gcd"
+                den = _unref(dargs[1])
+                ok = _is_abs(num) and den[0] == "call" and str(den[1]).split("::")[-1] == "gcd"
+                if ok:
+                    # |x| / gcd(..) * |y| with {x, y} = {a, b}; gcd's operands are a and b (their sign is irrelevant: gcd takes
+                    # absolute values itself, checked above)
+                    gargs = [_operand_of(x) for x in den[2] if not (isinstance(x, tuple) and x and x[0] == "mem")]
+                    ok = {_operand_of(num), _operand_of(rv)} == {la, lb} and set(gargs) == {la, lb}
         key = "%s|abs-div-mul" % fk(lcm)
         if ok:
             col.ok("Q2", lcm.loc(), key, "(|a| / gcd(a, b)) * |b|")
@@ -206,7 +246,7 @@ def check(col, prog, tier, profile, fixture=None):
         evs = st.event_list()
         eg = [e for e in evs if _is(e, egcd)]
         if not (ret[0] == "agg" and ret[1][3] == "Some"):
-            prop = any(f[0] == "eq" and f[2] == 1 and isinstance(f[1], tuple) and f[1][0] == "discr" for f in st.facts) and eg
+            prop = _none_of(st, eg)
             if prop:
                 col.ok("Q3", crt.loc(), "%s|none-propagated" % fk(crt), "None only when the solver has no solution")
             else:
